@@ -45,7 +45,7 @@ THEORY = {
     # lemma name -> properties it serves
     "lemma_fold_is_max": ["C06"], "lemma_fold_from_none": ["C06", "C20"], "lemma_fold_ids": ["C06"],
     "lemma_truncate_after_append": ["C05"], "lemma_kept_then_abandoned": ["C05"],
-    "lemma_powers": ["C09"], "lemma_count": ["C02"],
+    "lemma_powers": ["C09"], "lemma_count": ["C02"], "lemma_memo_nesting_bounded": ["C11"],
 }
 CANARY = """
 use vstd::prelude::*;
